@@ -89,6 +89,16 @@ def gen_api_desc(rng, nasty_attrs):
         for gone in ("bottom", "r0", "r1", "nosuch"):
             d["styles"].pop(gone, None)
     if nasty_attrs:
+        # at least one style node of the set carries a value with XML metacharacters (a double quote among them): the writer
+        # builds the <span> start tag by hand
+        svals = [{"font-family": '"Courier New", monospace'}, {"color": 'a"b'}, {"font-family": "R&D <sans>"}, {"font-family": 'x"y\'z'}]
+        snodes = [n for L in d["langs"] for c in L["caps"] for n in c["nodes"] if n[0] == "S" and n[1]]
+        if snodes:
+            snodes[0][2] = dict(snodes[0][2], **rng.choice(svals[:2]))
+        else:
+            c0 = d["langs"][0]["caps"][0]
+            c0["nodes"] = [["S", True, dict(rng.choice(svals))]] + c0["nodes"] + [["S", False, {}]]
+            c0["nodes"][-1][2] = dict(c0["nodes"][0][2])
         k = rng.random()
         if k < 0.35:
             d["langs"][0]["lang"] = rng.choice(["en&fr", "x<y", 'a"b'])
